@@ -111,6 +111,12 @@ let clauses_raw h (impl : string) : (string * bool) list =
             @ [ ("finish_last", check_finish_last cs);
                 ("ops_exact", check_ops_exact orc.o_on (n os) (n oe) (n ns) (n ne) ops);
                 ("alternating", check_alternating ops) ]
+        | "replace_nofinish" ->
+            (* NoFinishHook under Replace: everything but finish is forwarded, replace included *)
+            base
+            @ [ ("nofinish_no_fin", not (List.mem CFin cs));
+                ("ops_exact", check_ops_exact orc.o_on (n os) (n oe) (n ns) (n ne) ops);
+                ("alternating", check_alternating ops) ]
         | "replace_norep" ->
             base
             @ [ ("finish_last", check_finish_last cs);
@@ -192,9 +198,12 @@ let clauses_adapter h (impl : string) : (string * bool) list =
     | None ->
         [ ("no_panic", true);
           ("no_error", err = "0");
-          ("finish_last", check_finish_last cs);
+          ("finish_last",
+           if stack = "nofinish" || stack = "replace_nofinish" then not (List.mem CFin cs) else check_finish_last cs);
           ("ops_loose", check_ops_loose orc.o_on (n os) (n oe) (n ns) (n ne) ops);
           ("cost_kept", deleted ops = deleted inp && inserted ops = inserted inp) ]
+        @ (if stack = "mutref" then [ ("forwards_unchanged", cs = script) ] else [])
+        @ (if stack = "nofinish" then [ ("forwards_unchanged", cs = List.filter (fun c -> c <> CFin) script) ] else [])
         @ (if stack = "compact_replace" then [ ("normal", check_normal orc.o_on ops) ] else [])
         @ if stack = "replace" then [ ("ops_exact", check_ops_exact orc.o_on (n os) (n oe) (n ns) (n ne) ops) ] else []
 
